@@ -438,7 +438,9 @@ class Mesh:
 
             marked_space.sort(key=lambda elem: elem.level_space)
             for elem in marked_space:
-                assert not elem.children
+                # The conformity closure of the time refinements above may have
+                # bisected this element; its children are reclassified next sweep.
+                if elem.children: continue
                 self.refine_space(elem)
         print('Grading added {} elements'.format(len(self.leaf_elements) - N))
 
